@@ -12,18 +12,24 @@
     NestedWf      `sideFv`: the side conditions on a saved volume; `wf_norm`: under the codec laws a
                   saved volume is inside the grammar again
     NestedParse / NestedAsm / NestedDecLemmas / NestedCanon / NestedTop / NestedGrowth   the proofs
+    NestedImgSpec the image grammar around the volumes (follow-up wp-c06c): BIOS region, flash image with
+                  descriptor; `serImg`, `treeImg`, `WFI`, `normImg`, `okImg`, `saveImg`, `decImg`
+    NestedImgBios / NestedImgFlash / NestedImgTop / NestedImgScan / NestedImgWf   the outer layers of C01
+                  (volume scan, region table, tiling, descriptor) for any hooks; `wf_norm_img`
 
   The model is the shared UEFI core (Uefi/Parse.lean, Uefi/Assemble.lean) — the codec was already a
   parameter there (`Hooks.codec`); nothing of it is re-defined.  Every theorem is for *all* hooks that
   satisfy the stated hypotheses (any codec table, lawful or not — what decoding must deliver is part of
   `WF`), every nesting depth, every size below the 16 MiB switch to long headers (the grammar of
-  NestedSpec.lean — the suffix `_small` of the theorem names), erase polarity 1.  They speak about one
-  firmware volume — the `_volume` in the names (top-level: `rz = false`,
-  or nested: `rz = true`): `uefi.NewFirmwareVolume` and the FirmwareVolume case of `Assemble`; the
-  region / descriptor layers around top-level volumes hold no compressed content and are C01's.
+  NestedSpec.lean — the suffix `_small` of the theorem names), erase polarity 1.  The theorems with
+  `_volume` in their names speak about one firmware volume (top-level: `rz = false`, or nested:
+  `rz = true`): `uefi.NewFirmwareVolume` and the FirmwareVolume case of `Assemble`; the ones without
+  it (`c06a_small`, `c06b_small`, … — section "whole images") about `uefi.Parse` / `Save` on a whole
+  image: a BIOS region or a flash image with descriptor.
 -/
 import FianoModel.Uefi.NestedGrowth
 import FianoModel.Uefi.NestedWf
+import FianoModel.Uefi.NestedImgWf
 import FianoModel.Uefi.NestedTie
 import FianoModel.Uefi.Tie
 import FianoModel.Uefi.EditTie
@@ -139,8 +145,11 @@ theorem c06_saved_is_canon (h : Hooks) (v : CFv) (rz : Bool) (hok : okFv h rz v 
   for every tail `ok g` admits) and the side conditions `sideFv h ok (normFv h v)` — a decidable
   predicate that mentions only what neither the input nor the laws determine: sections that were not
   decodable are still not decodable where they now stand; every re-encoded section is followed by a
-  tail its codec tolerates; every saved volume has a length that is a multiple of 8 below 2^62, ends in
-  a tail the file walk reads as free space, and its last file is not a bare header flush with the end.
+  tail its codec tolerates.  (Since follow-up wp-c06c nothing else: the grammar follows the repaired
+  reader, /repo 8039e86 / cce350a, so a saved volume may end in an erased tail of 24..31 bytes or in
+  a bare 24-byte file header; that the length of a saved volume is a multiple of 8 below 2^62 follows
+  from the input when the volume keeps its length, and is part of `okFv` — asked of the grown length —
+  when a nested volume grows: `c06_growth_side_pow2` shows it holds for power-of-two block sizes ≥ 8.)
   Everything else — the re-encoded payloads decode to the normalised children, every file (and every
   synthesised pad file) sits where the placement rule puts it and inside the volume, sizes, block maps
   and header fields are in range — is proved. -/
@@ -191,6 +200,19 @@ theorem c06_nested_growth (l e k cnt : Nat) (bs : List Block) (hk : k ≤ 63) (h
   rw [hr]
   exact ⟨hg.1, by omega, hg.2.1, hg.2.2.1, rfl, hg.2.2.2⟩
 
+/-- the two conditions `okFv` puts on the grown length of a nested volume (a multiple of 8, below
+    2^62) hold whenever the first block size is a power of two ≥ 8 and one more block fits below 2^62 -/
+theorem c06_growth_side_pow2 (e k : Nat) (hk3 : 3 ≤ k) (hk : k ≤ 63) (he : e + 2 ^ k ≤ 2 ^ 62) :
+    alignGo e (2 ^ k) % 8 = 0 ∧ alignGo e (2 ^ k) < 0x4000000000000000 := by
+  have hg := grow_pow2 e k hk (by omega)
+  refine ⟨?_, by omega⟩
+  have hd : 8 ∣ 2 ^ k := by
+    have : (2 : Nat) ^ k = 2 ^ 3 * 2 ^ (k - 3) := by rw [← Nat.pow_add]; congr 1; omega
+    exact ⟨2 ^ (k - 3), by rw [this]⟩
+  have := Nat.mod_mod_of_dvd (alignGo e (2 ^ k)) hd
+  rw [hg.1] at this
+  simpa using this.symm
+
 /-- a volume whose files still fit keeps its length and its block map -/
 theorem c06_no_growth (l e : Nat) (blocks : List Block) (hle : e ≤ l) : finishLen l e blocks = (l, blocks) :=
   finishLen_keep l e blocks hle
@@ -205,6 +227,28 @@ theorem c06_ffs3_switch (i : FvInfo) (fbuf : Bytes) (st : St) (i' : FvInfo) (out
     st'.ffs3 = false ∧
       i'.fsGuid = (if (st.ffs3 && i.fsGuid == guidFFS2) = true then guidFFS3 else i.fsGuid) :=
   ⟨(finishFv_flag i fbuf st i' out st' hfin).1, (finishFv_flag i fbuf st i' out st' hfin).2.2⟩
+
+/-- **the switch is stable** (flag level; what the FFSv3 switch does to C06b): once a save has
+    switched a volume from FFSv2 to FFSv3, every later save of it — whatever the visitor's flag says
+    then — leaves the file-system GUID at FFSv3 and resets the flag: the second save of
+    `Save(Parse(Save(Parse x)))` cannot flip the GUID of a volume that holds a file or section of
+    16 MiB or more.  (No byte-level statement: the grammar of the round trip is below 16 MiB.) -/
+theorem c06_ffs3_switch_stable (i : FvInfo) (fbuf : Bytes) (st : St) (i' : FvInfo) (out : Bytes) (st' : St)
+    (hfin : finishFv i fbuf st = .ok (i', out, st')) (hsw : st.ffs3 = true) (hg : i.fsGuid = guidFFS2) :
+    i'.fsGuid = guidFFS3 ∧ st'.ffs3 = false ∧
+      ∀ (fbuf2 : Bytes) (st2 : St) (i2 : FvInfo) (out2 : Bytes) (st2' : St),
+        finishFv i' fbuf2 st2 = .ok (i2, out2, st2') → i2.fsGuid = guidFFS3 ∧ st2'.ffs3 = false := by
+  have h1 := c06_ffs3_switch i fbuf st i' out st' hfin
+  have e1 : i'.fsGuid = guidFFS3 := by
+    rw [h1.2, hsw, hg]
+    simp
+  refine ⟨e1, h1.1, ?_⟩
+  intro fbuf2 st2 i2 out2 st2' h2
+  have h3 := c06_ffs3_switch i' fbuf2 st2 i2 out2 st2' h2
+  refine ⟨?_, h3.1⟩
+  rw [h3.2, e1]
+  have hne : (guidFFS3 == guidFFS2) = false := by decide
+  simp [hne]
 
 /-- the flag is raised by exactly the rebuilt files and sections above 16 MiB -/
 theorem c06_ffs3_raised (n : Nat) (st : St) :
@@ -282,5 +326,213 @@ example : ∃ y, saveVol sampleHooks 64 false (ser sampleVolume) = .ok y ∧ sav
     rw [h1] at this
     exact (Except.ok.inj this)
   exact ⟨y, h1, h2, by rw [hy]; exact hne⟩
+
+/-! ### the boundaries the grammar gained with the repaired reader (follow-up wp-c06c)
+
+  Since /repo 8039e86 / cce350a the reader takes an erased tail of 24..31 bytes for free space and
+  finds a file header that starts exactly at Length-24; `NestedSpec.wfFv` has no clause on what follows
+  the last file any more and `wfFiles` lets a header end exactly at the length; the extended header of
+  a volume may end exactly at Length (/repo eaa94dc).  Volumes at these boundaries satisfy every
+  hypothesis of the theorems above (T2: corpus cases barehdr-last-*, tail24-input-*, exthdr-flush-nested). -/
+
+/-- last file = a bare 24-byte header flush with the end of the volume (no free space) -/
+def bareHdrVolume : CFv :=
+  .ffs (List.replicate 16 0) false 0x0004FEFF 2 0 [⟨17, 8⟩] none
+    [.leaf (.leaf [1,2,3,4,5,6,7,8,9,10,11,12,13,14,15,16] 0 0xAA 1 0 0xF8 false (List.replicate 16 0x5A)),
+     .leaf (.leaf [2,2,3,4,5,6,7,8,9,10,11,12,13,14,15,16] 0 0xAA 1 0 0xF8 false [])] 0
+
+/-- an erased tail of exactly 24 bytes behind the last file -/
+def tail24Volume : CFv :=
+  .ffs (List.replicate 16 0) false 0x0004FEFF 2 0 [⟨17, 8⟩] none
+    [.leaf (.leaf [1,2,3,4,5,6,7,8,9,10,11,12,13,14,15,16] 0 0xAA 1 0 0xF8 false (List.replicate 16 0x5A))] 24
+
+/-- no files, the extended header ends exactly at Length (76 + 20 = 96; the parser accepts it since
+    /repo eaa94dc, `Spec.wfFv` since a3abd9c of this framework — `NestedSpec.wfFv` now as well) -/
+def extFlushVolume : CFv :=
+  .ffs (List.replicate 16 0) false 0x0004FEFF 2 0 [⟨12, 8⟩] (some ⟨[0, 0, 0, 0], List.replicate 16 7, []⟩) [] 0
+
+theorem c06_boundary_ext_wellformed :
+    WF sampleHooks extFlushVolume ∧ okFv sampleHooks true extFlushVolume = true ∧ (ser extFlushVolume).length = 96 ∧
+      ehoOf [⟨12, 8⟩] (some ⟨[0, 0, 0, 0], List.replicate 16 7, []⟩) + 20 = 96 := by
+  unfold WF
+  decide
+
+set_option maxRecDepth 100000 in
+theorem c06_boundary_volumes_wellformed :
+    WF sampleHooks bareHdrVolume ∧ okFv sampleHooks true bareHdrVolume = true ∧
+      sideFv sampleHooks okTails (normFv sampleHooks bareHdrVolume) = true ∧ (ser bareHdrVolume).length = 136 ∧
+    WF sampleHooks tail24Volume ∧ okFv sampleHooks true tail24Volume = true ∧
+      sideFv sampleHooks okTails (normFv sampleHooks tail24Volume) = true ∧ (ser tail24Volume).length = 136 := by
+  unfold WF
+  decide
+
+/-! ## C06a / C06b for whole images (follow-up wp-c06c)
+
+  The theorems above speak about one firmware volume.  Below they are composed with the outer layers
+  of C01's grammar — the volume scan of the BIOS region (paddings, volumes, tail) and the flash image
+  with its descriptor (regions before / after the BIOS region kept verbatim) — for images `CImg` whose
+  BIOS region holds volumes of the *extended* grammar (NestedImgSpec.lean).  `serImg i` are the bytes,
+  `saveImg h fuel x` = `uefi.Parse(x)` in a fresh process followed by `visitors.Save` in the same
+  process (`Uefi.save` with an explicit recursion budget — `c06_saveImg_is_save`), `decImg` = the fully
+  decoded tree `decTree` of the whole parsed image (descriptor, regions, paddings included),
+  `normImg h i` = the image with every top-level volume in normal form (same length, paddings / tail /
+  descriptor / other regions untouched), `okImg h i` = `okFv h false` of every top-level volume (a
+  top-level volume cannot grow).  Still below 16 MiB (`_small`: the volumes are those of NestedSpec.lean). -/
+
+/-- `Uefi.save` is `saveImg` with the default budget (input length + 8) -/
+theorem c06_saveImg_is_save (h : Hooks) (x : Bytes) : saveImg h (defaultFuel x) x = save h x := rfl
+
+/-- `uefi.Parse` on a serialised image of the extended grammar returns exactly the tree the grammar
+    prescribes: descriptor and region nodes as in C01, volumes with their decoded children -/
+theorem c06_parse_image_small (h : Hooks) (hk : HooksOK h) (i : CImg) (hw : WFI h i) (fuel : Nat)
+    (hf : costImg i ≤ fuel) :
+    ∃ st', parseWith h fuel (serImg i) {} = .ok (treeImg i, st') ∧ st'.pol = 0xFF ∧ st'.ffs3 = false :=
+  parse_img hk i hw fuel hf
+
+/-- `visitors.Assemble` + `Save` on that tree write the normal form of the image: every top-level
+    volume rebuilt (`normFv`), everything else byte for byte -/
+theorem c06_asm_image_small (h : Hooks) (hk : HooksOK h) (i : CImg) (hw : WFI h i) (hok : okImg h i = true)
+    (st : St) (hp : st.pol = 0xFF) : asmWith h (treeImg i) st = .ok (serImg (normImg h i)) :=
+  asm_img hk i hw hok st hp
+
+/-- a save keeps the length of the image -/
+theorem c06_saved_image_length (h : Hooks) (hk : HooksOK h) (i : CImg) (hw : WFI h i) (hok : okImg h i = true) :
+    (serImg (normImg h i)).length = (serImg i).length :=
+  serImg_norm_length hk i hw hok
+
+/-- **C06a, whole image**: the decoded tree of `Parse(Save(Parse(x)))` is the decoded tree of `Parse(x)`
+    for every image `x = serImg i` (BIOS region or flash image with descriptor) of the extended grammar -/
+theorem c06a_small (h : Hooks) (hk : HooksOK h) (i : CImg) (hw : WFI h i) (hok : okImg h i = true)
+    (hw' : WFI h (normImg h i)) (fuel : Nat) (hf : costImg i ≤ fuel) (hf' : costImg (normImg h i) ≤ fuel) :
+    ∃ y d, saveImg h fuel (serImg i) = .ok y ∧ decImg h fuel y = .ok d ∧ decImg h fuel (serImg i) = .ok d := by
+  refine ⟨serImg (normImg h i), decTree (treeImg i), saveImg_ser hk i hw hok fuel hf, ?_, decImg_ser hk i hw fuel hf⟩
+  rw [decImg_ser hk (normImg h i) hw' fuel hf', dec_img i hw hok]
+
+/-- **C06b, whole image**: `Save(Parse(Save(Parse(x)))) = Save(Parse(x))`, byte for byte -/
+theorem c06b_small (h : Hooks) (hk : HooksOK h) (i : CImg) (hw : WFI h i) (hok : okImg h i = true)
+    (hw' : WFI h (normImg h i)) (fuel : Nat) (hf : costImg i ≤ fuel) (hf' : costImg (normImg h i) ≤ fuel) :
+    ∃ y, saveImg h fuel (serImg i) = .ok y ∧ saveImg h fuel y = .ok y := by
+  have hc := canon_img i hok
+  refine ⟨serImg (normImg h i), saveImg_ser hk i hw hok fuel hf, ?_⟩
+  have := saveImg_ser hk (normImg h i) hw' (ok_img (normImg h i) hw' hc) fuel hf'
+  rw [norm_img (normImg h i) hw' hc] at this
+  exact this
+
+/-- the C01 statement for whole images with compressed content: a canonical image (every compressed
+    payload is what the encoder emits for its children) is reproduced byte for byte -/
+theorem c06_save_identity_canon_small (h : Hooks) (hk : HooksOK h) (i : CImg) (hw : WFI h i)
+    (hc : canonImg h i = true) (fuel : Nat) (hf : costImg i ≤ fuel) :
+    saveImg h fuel (serImg i) = .ok (serImg i) := by
+  have := saveImg_ser hk i hw (ok_img i hw hc) fuel hf
+  rw [norm_img i hw hc] at this
+  exact this
+
+/-- **what a save writes is inside the image grammar again**: from the codec laws and the side
+    conditions `sideFv` on each saved top-level volume (`sideImg`) alone — that the volume scan finds
+    every saved volume behind its padding again, that a saved bare BIOS region still does not look
+    like a flash image, and that descriptor, region table and tiling still fit are *consequences* -/
+theorem c06_saved_image_wellformed_small (h : Hooks) (ok : Guid → Bytes → Bool) (hk : HooksOK h)
+    (hlaw : LawsOK h ok) (i : CImg) (hw : WFI h i) (hok : okImg h i = true)
+    (hs : sideImg h ok (normImg h i) = true) : WFI h (normImg h i) :=
+  wf_norm_img hk hlaw i hw hok hs
+
+/-- **C06a, whole image, from the codec laws** -/
+theorem c06a_small_laws (h : Hooks) (ok : Guid → Bytes → Bool) (hk : HooksOK h) (hlaw : LawsOK h ok)
+    (i : CImg) (hw : WFI h i) (hok : okImg h i = true) (hs : sideImg h ok (normImg h i) = true)
+    (fuel : Nat) (hf : costImg i ≤ fuel) (hf' : costImg (normImg h i) ≤ fuel) :
+    ∃ y d, saveImg h fuel (serImg i) = .ok y ∧ decImg h fuel y = .ok d ∧ decImg h fuel (serImg i) = .ok d :=
+  c06a_small h hk i hw hok (wf_norm_img hk hlaw i hw hok hs) fuel hf hf'
+
+/-- **C06b, whole image, from the codec laws** -/
+theorem c06b_small_laws (h : Hooks) (ok : Guid → Bytes → Bool) (hk : HooksOK h) (hlaw : LawsOK h ok)
+    (i : CImg) (hw : WFI h i) (hok : okImg h i = true) (hs : sideImg h ok (normImg h i) = true)
+    (fuel : Nat) (hf : costImg i ≤ fuel) (hf' : costImg (normImg h i) ≤ fuel) :
+    ∃ y, saveImg h fuel (serImg i) = .ok y ∧ saveImg h fuel y = .ok y :=
+  c06b_small h hk i hw hok (wf_norm_img hk hlaw i hw hok hs) fuel hf hf'
+
+/-- the hooks built from any pair of cores know exactly the four codec GUIDs, decompression on -/
+theorem c06_hooks_of_cores_ok (k : Cores) : HooksOK (hooksOf k) := by
+  refine ⟨rfl, ?_⟩
+  intro g hg
+  simp only [hooksOf, codecOf]
+  have h1 : g ≠ guidLZMA := by intro hc; rw [hc] at hg; revert hg; decide
+  have h2 : g ≠ guidLZMAX86 := by intro hc; rw [hc] at hg; revert hg; decide
+  have h3 : g ≠ guidZLIB := by intro hc; rw [hc] at hg; revert hg; decide
+  have h4 : g ≠ guidBROTLI := by intro hc; rw [hc] at hg; revert hg; decide
+  simp [h1, h2, h3, h4]
+
+/-- **C06a and C06b for the compressors of pkg/compression over any lawful third-party cores**: the
+    framing of `compression.CompressorFromGUID` (size fields, x86 branch filter, ZLIB section header)
+    is the model's own (`hooksOf`); of the LZMA core only "decodes what it encoded, whatever follows
+    the stream" is assumed, of the zlib core only losslessness.  Whole images; the remaining
+    hypotheses are the decidable ones: the image is well formed and can be rebuilt, the two side
+    conditions on each saved volume, the recursion budget. -/
+theorem c06ab_small_cores (k : Cores) (hl : k.lzma.TailLawful) (hz : k.zlib.Lawful) (i : CImg)
+    (hw : WFI (hooksOf k) i) (hok : okImg (hooksOf k) i = true)
+    (hs : sideImg (hooksOf k) okTails (normImg (hooksOf k) i) = true)
+    (fuel : Nat) (hf : costImg i ≤ fuel) (hf' : costImg (normImg (hooksOf k) i) ≤ fuel) :
+    (∃ y d, saveImg (hooksOf k) fuel (serImg i) = .ok y ∧ decImg (hooksOf k) fuel y = .ok d ∧
+        decImg (hooksOf k) fuel (serImg i) = .ok d) ∧
+      (∃ y, saveImg (hooksOf k) fuel (serImg i) = .ok y ∧ saveImg (hooksOf k) fuel y = .ok y) :=
+  ⟨c06a_small_laws (hooksOf k) okTails (c06_hooks_of_cores_ok k) (c06_laws_of_cores k hl hz) i hw hok hs fuel hf hf',
+   c06b_small_laws (hooksOf k) okTails (c06_hooks_of_cores_ok k) (c06_laws_of_cores k hl hz) i hw hok hs fuel hf hf'⟩
+
+/-! ### non-vacuity: a BIOS region and a flash image that satisfy every hypothesis
+
+  BIOS region: the non-canonical sample volume above, 16 bytes of padding, a volume of a file system
+  the tool does not parse, an erased tail.  Flash image: C01's sample descriptor (BIOS = block 3,
+  ME = block 1), an ME region, a gap the table does not describe, and that BIOS region (4 KiB). -/
+
+def sampleOtherFv : CFv :=
+  .other (.other (List.replicate 16 0xFF) guidNVAR 0x0004FEFF 2 0 [⟨9, 8⟩] (List.replicate 8 0x5A))
+
+def sampleBiosRegion : CBios :=
+  ⟨[([], sampleVolume), (List.replicate 16 0xFF, sampleOtherFv)], List.replicate 3624 0xFF⟩
+
+def sampleBiosImage : CImg := .bios ⟨[([], sampleVolume), (List.replicate 16 0xFF, sampleOtherFv)], [1, 2, 3]⟩
+
+/-- C01's sample descriptor (Props/C01.lean `sampleDesc`) -/
+def sampleDescC : Bytes :=
+  List.replicate 16 0xFF ++ [0x5a, 0xa5, 0xf0, 0x0f] ++
+  [0, 0, 4, 0, 8, 0, 0, 0, 0, 0, 0, 0, 0, 0, 0, 0] ++ List.replicate 28 0x5A ++
+  [0x34, 0x12, 0x00, 0x10, 3, 0, 3, 0, 1, 0, 1, 0] ++ (List.replicate 13 [0xFF, 0x7F, 0, 0]).flatten ++
+  [0, 0, 0xFF, 0xFF, 0, 0, 0xFF, 0xFF, 0x18, 0x01, 0x08, 0x08] ++ List.replicate 3956 0x5A
+
+def sampleFlashImage : CImg :=
+  .flash ⟨sampleDescC, [.me (List.replicate 4096 0xA5), .gap (List.replicate 4096 0x77)], sampleBiosRegion, []⟩
+
+set_option maxRecDepth 1000000 in
+set_option maxHeartbeats 4000000 in
+theorem c06_sample_bios_image :
+    WFI sampleHooks sampleBiosImage ∧ okImg sampleHooks sampleBiosImage = true ∧
+      sideImg sampleHooks okTails (normImg sampleHooks sampleBiosImage) = true ∧
+      costImg sampleBiosImage ≤ 80 ∧ costImg (normImg sampleHooks sampleBiosImage) ≤ 80 ∧
+      canonImg sampleHooks sampleBiosImage = false := by
+  unfold WFI
+  decide
+
+set_option maxRecDepth 1000000 in
+set_option maxHeartbeats 4000000 in
+theorem c06_sample_flash_image :
+    WFI sampleHooks sampleFlashImage ∧ okImg sampleHooks sampleFlashImage = true ∧
+      sideImg sampleHooks okTails (normImg sampleHooks sampleFlashImage) = true ∧
+      costImg sampleFlashImage ≤ 80 ∧ costImg (normImg sampleHooks sampleFlashImage) ≤ 80 := by
+  unfold WFI
+  decide
+
+/-- C06a and C06b from the laws, applied to the sample flash image -/
+example : (∃ y d, saveImg sampleHooks 80 (serImg sampleFlashImage) = .ok y ∧ decImg sampleHooks 80 y = .ok d ∧
+      decImg sampleHooks 80 (serImg sampleFlashImage) = .ok d) ∧
+    (∃ y, saveImg sampleHooks 80 (serImg sampleFlashImage) = .ok y ∧ saveImg sampleHooks 80 y = .ok y) := by
+  obtain ⟨hw, hok, hs, hf, hf'⟩ := c06_sample_flash_image
+  have hl := c06_laws_of_cores Cores.stored sized13_tailLawful Compress.stored_lawful
+  exact ⟨c06a_small_laws sampleHooks okTails c06_sample_hooks_ok hl sampleFlashImage hw hok hs 80 hf hf',
+    c06b_small_laws sampleHooks okTails c06_sample_hooks_ok hl sampleFlashImage hw hok hs 80 hf hf'⟩
+
+/-- … and to the sample BIOS region -/
+example : ∃ y, saveImg sampleHooks 80 (serImg sampleBiosImage) = .ok y ∧ saveImg sampleHooks 80 y = .ok y := by
+  obtain ⟨hw, hok, hs, hf, hf', _⟩ := c06_sample_bios_image
+  exact c06b_small_laws sampleHooks okTails c06_sample_hooks_ok
+    (c06_laws_of_cores Cores.stored sized13_tailLawful Compress.stored_lawful) sampleBiosImage hw hok hs 80 hf hf'
 
 end Fiano.Uefi.Nested
